@@ -330,8 +330,8 @@ def _ckey(e):
     """identity of a counter: a local name, or a constant slot of a local list"""
     if isinstance(e, ast.Name):
         return e.id
-    if isinstance(e, ast.Subscript) and isinstance(e.value, ast.Name) and isinstance(e.slice, ast.Constant) and isinstance(e.slice.value, int):
-        return f"{e.value.id}[{e.slice.value}]"
+    if isinstance(e, ast.Subscript) and isinstance(e.value, ast.Name) and isinstance(e.slice, ast.Constant) and isinstance(e.slice.value, (int, str)):
+        return f"{e.value.id}[{e.slice.value!r}]"
     return None
 
 
@@ -356,7 +356,7 @@ def _table_counters(run: Run, tt):
                 slot, dl = ast.literal_eval(v.elts[0]), ast.literal_eval(v.elts[1])
             except Exception:
                 return None
-            if not (isinstance(slot, int) and dl in (1, -1)):
+            if not (isinstance(slot, (int, str)) and not isinstance(slot, bool) and dl in (1, -1)):
                 return None
             ent[k.value] = (slot, dl)
         return ent or None
@@ -413,7 +413,7 @@ def _table_counters(run: Run, tt):
         if ent is None or not fa.cfg.dominates(fa.cfg.node_of(un), fa.cfg.node_of(n)):
             continue
         for br, (slot, d) in ent.items():
-            (inc if d == 1 else dec)[br] = f"{lst}[{slot}]"
+            (inc if d == 1 else dec)[br] = f"{lst}[{slot!r}]"
     return inc, dec
 
 
